@@ -127,7 +127,8 @@ def main(chk: core.Check) -> int:
     chk.coverage["rule"] = "evaluations = helices pushed through object/record/array forms; tolerance 1e-9 rel + 1e-9 abs (scaled by pivot size); distinct = check classes"
     chk.assumptions += ["theorems are over the reals; IEEE rounding, libm and vector's coordinate conversions are outside the model and are compared through the correspondence with tolerance 1e-9",
                         "hand-written model Model/Helix.lean mirrors helix.py after the fix: commits"]
-    chk.prove()
+    hc.regen(chk)
+    chk.prove(modules=["C13", "HelixTie2"])
     try:
         mism = run(chk, n)
         chk.coverage["traces_validated_against_impl"] = n
